@@ -33,7 +33,7 @@ STUB = ["SdSimulation worker threads run serially (the models are deterministic;
 ASSUMPTIONS = ["after a session passed step-level settings for an element to a scenario, that scenario's OWN results are not judged until it is explicitly re-parameterised for that element (the property does not say whether step settings outlive the session); all other scenarios and the base models stay under the oracle",
                "the fresh-model oracle shares the DSL core with the system (its correctness is C01, not claimed)"]
 FAULT_KINDS = []
-PROBES = ["hybrid_scenarios_with_lookup_properties", "session_over_scenarios_on_different_grids", "observed_together_with_sibling", "sibling_on_another_grid", "hybrid_manager", "managers_share_base_object", "points_setting", "runspec_setting", "step_level_setting", "rest_run_setting", "session_left_open",
+PROBES = ["hybrid_sibling_stepped_in_a_session", "hybrid_scenarios_with_lookup_properties", "session_over_scenarios_on_different_grids", "observed_together_with_sibling", "sibling_on_another_grid", "hybrid_manager", "managers_share_base_object", "points_setting", "runspec_setting", "step_level_setting", "rest_run_setting", "session_left_open",
           "scenario_added_later", "session_with_foreign_operations", "step_settings_expire_with_the_session", "sparse_observation", "rest_run_over_two_scenarios", "point_edited_in_place", "session_over_two_managers", "scenario_registered_again", "run_over_two_managers", "name_known_to_one_manager_only"]
 EXHAUSTIVE = {"quick": False, "thorough": False}
 
@@ -135,6 +135,10 @@ def generate_hybrid(rng):
             ops.append({"op": "run", "scenarios": rng.sample(names, rng.randint(1, len(names)))})
         elif lookups is not None and r < 0.8:
             ops.append({"op": "set_lookup", "scenario": rng.choice(names), "points": [[0.0, rng.choice([7.0, 9.0])], [10.0, rng.choice([0.0, 3.0])]]})
+        elif r < 0.85:
+            # one scenario is stepped in a session of its own (one or two steps, then the session is ended): its siblings that
+            # have run keep their results, and a later request for them is answered
+            ops.append({"op": "session_steps", "scenario": rng.choice(names), "n": rng.choice([1, 2])})
         else:
             ops.append({"op": "reset_cache", "scenario": rng.choice(names)})
     return {"property": PROPERTY, "kind": "hybrid", "scenarios": scs, "ops": ops, "lookups": lookups}
@@ -202,9 +206,21 @@ def execute_hybrid(case, prop="C06"):
                     # a scenario run for the first time reports what it reports when it is run alone (a re-run after a cache
                     # reset continues from the agents' current state and is not compared)
                     missing = [nm for nm in first_run if solo_has_output[nm] and (not isinstance(out, dict) or nm not in out.get("smAbm", {}))]
+                    missing += [nm for nm in op["scenarios"] if state[nm] == "ran" and nm not in first_run and solo_has_output[nm]
+                                and (not isinstance(out, dict) or nm not in out.get("smAbm", {}))]
                     if missing:
                         res.violate(prop + ".hybrid-no-results", {"op": op, "missing": missing, "op_index": k})
                         break
+                elif op["op"] == "session_steps":
+                    res.probe("hybrid_sibling_stepped_in_a_session")
+                    b.begin_session(scenarios=[op["scenario"]], scenario_managers=["smAbm"], agents=["a", "b"], agent_states=["idle"])
+                    for _ in range(op["n"]):
+                        b.run_step()
+                    b.end_session()
+                    # (begin/end of a session reset that scenario's cache: it is judged again once it has been re-run)
+                    state[op["scenario"]] = "reset" if state[op["scenario"]] != "fresh" else "fresh"
+                    if state[op["scenario"]] == "fresh":
+                        state[op["scenario"]] = "reset"
                 elif op["op"] == "set_lookup":
                     # what REST /run does with settings.<manager>.<scenario>.properties
                     if tbl is not None:
